@@ -46,6 +46,14 @@ CHECKS = {
  'C20': ('Validations.tla accessor state machine model-checked (LawGetSet, LawClearExact, LawClearIdem) over every keyword subset; every '
          'state x clear program stepped through the real carriers; every recorded step validated by TLC against the module\'s actions.',
          '6 (C20)', 'TLA+ model checking (TLC) + replay of TLC-enumerated states/programs + TLC trace validation step by step'),
+ 'C16': ('Sessions.tla (world versions, package cache, per-call clone) model-checked incl. the action property C16_Stateless; every history of '
+         'bounded length exported with expected version vectors and replayed back to back in one process per shard; options, package cache '
+         'keys and built-in meta-schemas observed after every call.',
+         '6 (C16)', 'TLA+ model checking (TLC) + replay of every TLC-exported history in one process'),
+ 'C17': ('Cache.tla lock protocol model-checked for every program assignment and interleaving (NoRace, Once, Linearizable, no deadlock, '
+         'termination); program assignments replayed on real goroutines; linearisation traces stamped inside the critical sections '
+         'validated by TLC (CacheTrace.tla) against the same RWLock predicates; stress under the Go race detector.',
+         '6 (C17)', 'TLA+ model checking (TLC) + TLC validation of linearisation traces from real goroutines + race detector stress'),
 }
 
 NA = {
@@ -93,6 +101,6 @@ def main():
     }
     json.dump(m, open(os.path.join(V, 'MANIFEST.json'), 'w'), indent=1)
 
-HOOK_COMMITS = ['eecdb5e']
+HOOK_COMMITS = ['eecdb5e', 'a813665']
 if __name__ == '__main__':
     main()
